@@ -341,11 +341,18 @@ class msg_headers(MsgSerializable):
     @classmethod
     def msg_deser(cls, f, protover=PROTO_VERSION):
         c = cls()
-        c.headers = VectorSerializer.stream_deserialize(CBlockHeader, f)
+        # each entry is a block header followed by its transaction count, which
+        # is always zero in a headers message
+        for i in range(VarIntSerializer.stream_deserialize(f)):
+            c.headers.append(CBlockHeader.stream_deserialize(f))
+            VarIntSerializer.stream_deserialize(f)
         return c
 
     def msg_ser(self, f):
-        VectorSerializer.stream_serialize(CBlockHeader, self.headers, f)
+        VarIntSerializer.stream_serialize(len(self.headers), f)
+        for header in self.headers:
+            CBlockHeader.stream_serialize(header, f)
+            VarIntSerializer.stream_serialize(0, f)
 
     def __repr__(self):
         return "msg_headers(headers=%s)" % (repr(self.headers))
